@@ -718,6 +718,13 @@ func (un *Unit) modelCall(fr *Frame, st *State, callee *ssa.Function, full strin
 			return Val{t: ite(eq("(i_tag "+args[0].t+")", "0"), "(mk_iface 0 0)", fmt.Sprintf("(mk_iface %d %s)", 100002, r))}, true
 		}
 		return Val{t: fmt.Sprintf("(mk_iface %d %s)", 100002, r)}, true
+	case "errors.Is":
+		r := un.u.freshConst("errors_is", "Bool")
+		// nil is no error; an error is itself
+		un.assume(st, implies(eq("(i_tag "+args[0].t+")", "0"), not(r)))
+		un.assume(st, implies(and(eq(args[0].t, args[1].t), not(eq("(i_tag "+args[0].t+")", "0"))), r))
+		un.assumed["errors.Is(nil, t) is false; errors.Is(e, e) is true for non-nil e"] = true
+		return Val{t: r}, true
 	case "strconv.FormatInt":
 		if args[1].t == "10" {
 			return Val{t: un.itoa(args[0].t)}, true
